@@ -149,9 +149,9 @@ deriving DecidableEq, Repr
 
 def Fixes.none : Fixes := ⟨false, false, false, false⟩
 def Fixes.all : Fixes := ⟨true, true, true, true⟩
-/-- /repo at 3c301f0: fix commits 84d7a3b, 702b167, 3373c0b are in, the initialisation error is
-still cached. -/
-def Fixes.now : Fixes := ⟨true, true, true, false⟩
+/-- The tree before c8ac4a7 (84d7a3b, 702b167, 3373c0b are in, the initialisation error is still
+cached); `Fixes.all` is /repo since c8ac4a7. Used by regression witnesses only. -/
+def Fixes.beforeC8ac4a7 : Fixes := ⟨true, true, true, false⟩
 
 /-! ### Accessors -/
 
